@@ -109,9 +109,16 @@ func c15Check(cc *run.Case, ind *reg.Indicator, iv inv, cfg reg.Cfg, class strin
 				continue
 			}
 			if !finite(v) {
-				if k >= firstIll[j] {
+				// after a zero denominator: exempt as long as the documented formula is
+				// undefined there too. Once the zero denominator has left every window the
+				// formula is a number again (and in range), and so must the value be.
+				if k >= firstIll[j] && !(j < len(ref) && k < len(ref[j]) && finite(ref[j][k].V)) {
 					cc.Count("exempt_nonfinite_after_zero_denominator", 1)
 					continue
+				}
+				if k >= firstIll[j] {
+					viol(j, k, fmt.Sprintf("value %v is not finite although the zero denominator at output index %d has long left the window: the documented formula gives %v here", v, firstIll[j], ref[j][k].V))
+					return
 				}
 				viol(j, k, fmt.Sprintf("value %v is not finite although no defining denominator was zero so far", v))
 				return
